@@ -41,6 +41,7 @@ ASSUMES = [
 ]
 
 TOKALPHA = G1.TOKALPHA
+HXENV = {"HX_CASE_TIMEOUT_MS": "30000"}      # the cases take microseconds; a loaded machine must not look like a hang
 CLASSES = ["esc-lost", "quote-glued", "paren", "or-glued"]
 LAW = re.compile(r"c=(\d) p=(\d) (?:k=(\d{4}) )?D=(.*) S=(.*)$")
 
@@ -165,7 +166,7 @@ def run(ctx, res):
         wit = [k["input"].split(": ", 1)[-1] for k in known.values() if k["class"] in CLASSES]
         if wit:
             p = C.write_cases("c16_wit.txt", [C.case("law", s) for s in wit])
-            check_law(res, "L1-witness", wit, C.run_model(model, p), C.run_impl(impl, p, len(wit)), known, st, V)
+            check_law(res, "L1-witness", wit, C.run_model(model, p), C.run_impl(impl, p, len(wit), env=HXENV), known, st, V)
             res.count("L1_recorded_witnesses", len(wit))
         # ------------------------------------------------------------ L1a exhaustive short lines
         toks = []
@@ -176,7 +177,7 @@ def run(ctx, res):
             toks.append("".join(rng.choice(TOKALPHA + ["a", "a", " ", " ", "\t", "x=", "$(", "2>&1", "*", "||", "&&", "$1", "${2}", "$@"])
                                 for _ in range(rng.randint(maxlen + 1, 24))))
         p = C.write_cases("c16_law.txt", [C.case("law", s) for s in toks])
-        mo, io = C.run_model(model, p), C.run_impl(impl, p, len(toks))
+        mo, io = C.run_model(model, p), C.run_impl(impl, p, len(toks), env=HXENV)
         res.count("L1a_law_short_lines", len(toks))
         check_law(res, "L1a", toks, mo, io, known, st, V)
         res.sample({"layer": "L1a", "input": toks[4242], "model": mo[4242], "impl": io[4242]})
@@ -184,7 +185,7 @@ def run(ctx, res):
         tt = [s for s in toks if len(s) != 5]          # (informational: the length-5 block is left out in thorough runs)
         pr = C.write_cases("c16_rer.txt", [C.case("xa", s) for s in tt])
         pf = C.write_cases("c16_rerfix.txt", [C.case("xafix", s) for s in tt])
-        ma, mf, ia = C.run_model(model, pr), C.run_model(model, pf), C.run_impl(impl, pr, len(tt))
+        ma, mf, ia = C.run_model(model, pr), C.run_model(model, pf), C.run_impl(impl, pr, len(tt), env=HXENV)
         n_a = sum(1 for x, y in zip(ma, ia) if x == y)
         n_f = sum(1 for x, y in zip(mf, ia) if x == y)
         variant = "expand_args" if n_a == len(tt) else ("expand_args_fixed" if n_f == len(tt) else None)
@@ -194,7 +195,7 @@ def run(ctx, res):
         # ------------------------------------------------------------ L1b domain lines
         lines = gen_domain_lines(ctx)
         p = C.write_cases("c16_law2.txt", [C.case("law", s) for s in lines])
-        mo, io = C.run_model(model, p), C.run_impl(impl, p, len(lines))
+        mo, io = C.run_model(model, p), C.run_impl(impl, p, len(lines), env=HXENV)
         res.count("L1b_law_domain_lines", len(lines))
         check_law(res, "L1b", lines, mo, io, known, st, V)
         for s, a in zip(lines, mo):
@@ -205,7 +206,7 @@ def run(ctx, res):
         # script arguments present: a positional-free line must come out the same
         sub = lines[::7]
         p2 = C.write_cases("c16_law3.txt", [C.case("law", s, "S", "A", "B C") for s in sub])
-        io2 = C.run_impl(impl, p2, len(sub))
+        io2 = C.run_impl(impl, p2, len(sub), env=HXENV)
         res.count("L1b_with_script_args", len(sub))
         for s, b0, b1 in zip(sub, io[::7], io2):
             m = LAW.match(b0)
@@ -221,7 +222,7 @@ def run(ctx, res):
         argsets = [[], ["s"], ["s", "A"], ["s", "A", "B b"], ["s", "$2", "'", "x y"]]
         pc = [C.case("law", l, *rng.choice(argsets)) for l in pl]
         p3 = C.write_cases("c16_xa.txt", pc)
-        mo3, io3 = C.run_model(model, p3), C.run_impl(impl, p3, len(pc))
+        mo3, io3 = C.run_model(model, p3), C.run_impl(impl, p3, len(pc), env=HXENV)
         res.count("L1b_positional", len(pc))
         for s, a, b in zip(pc, mo3, io3):
             if strip_k(a) != b:
@@ -247,7 +248,7 @@ def run(ctx, res):
                 f += [rng.choice(["", "", "'", '"', "`", "\\"]), "".join(rng.choice(A2 + ["|", ";"]) for _ in range(rng.randint(0, 4)))]
             sc.append(C.case("t2l", *f) if f else "t2l\t")
         p4 = C.write_cases("c16_small.txt", sc)
-        mo4, io4 = C.run_model(model, p4), C.run_impl(impl, p4, len(sc))
+        mo4, io4 = C.run_model(model, p4), C.run_impl(impl, p4, len(sc), env=HXENV)
         res.count("L1c_small_functions", len(sc))
         for s, a, b in zip(sc, mo4, io4):
             if a != b:
@@ -296,20 +297,22 @@ def fresh(work, tag):
 
 def run_entry(ctx, work, line, entry):
     d = fresh(work, entry)
+    sd = tempfile.mkdtemp(prefix="scr", dir=work)     # script files live OUTSIDE the cwd: a glob must list the same files
     try:
         if entry == "c":
             return observe(ctx, d, [ctx.cicada, "-c", line])
-        sp = os.path.join(d, "s.sh")
+        sp = os.path.join(sd, "s.sh")
         if entry == "script":
             open(sp, "w").write(line + "\n")
         elif entry == "function":
             open(sp, "w").write("function f() {\n" + line + "\n}\nf\n")
         elif entry == "source":
-            open(os.path.join(d, "inc.sh"), "w").write(line + "\n")
-            open(sp, "w").write("source inc.sh\n")
+            open(os.path.join(sd, "inc.sh"), "w").write(line + "\n")
+            open(sp, "w").write("source " + os.path.join(sd, "inc.sh") + "\n")
         return observe(ctx, d, [ctx.cicada, sp])
     finally:
         shutil.rmtree(d, ignore_errors=True)
+        shutil.rmtree(sd, ignore_errors=True)
 
 
 def run_pty(ctx, work, line):
@@ -419,6 +422,9 @@ def layer2(ctx, res, known, V, work, lines):
         comp, posi, k, dm, sm = m.groups()
         if comp == "0" or posi == "1":
             continue
+        if any(o[e]["status"] == "TIMEOUT" for e in o):
+            st["inconclusive_timeout"] = st.get("inconclusive_timeout", 0) + 1      # machine overloaded: no verdict
+            continue
         kc = klass(k)
         short = l.replace(hp, "hp")
         # a mechanism outside expand_args (run_script's textual joining of continuation lines): no model prediction,
@@ -473,6 +479,9 @@ def layer2(ctx, res, known, V, work, lines):
     for i, po in zip(ip, pouts):
         m = LAW.match(mo[i])
         if m is None or m.group(1) == "0" or m.group(2) == "1":
+            continue
+        if po["status"] is None:
+            st["inconclusive_pty"] = st.get("inconclusive_pty", 0) + 1             # the status probe never ran: no verdict
             continue
         if not same(po, outs[i]["c"], with_stdout=False):
             V("oracle", "L2-pty", pick[i], {"entry": "-c", **outs[i]["c"]}, {"entry": "prompt", **po}, True,
